@@ -14,12 +14,12 @@ git -C /repo worktree remove --force "$EV" >/dev/null 2>&1
 git -C /repo worktree add -q --detach "$EV" HEAD || exit 2
 mkdir -p "$EV/SEED"; cp "$SRC"/patch.diff "$SRC"/demo.py "$SRC"/meta.json "$EV/SEED/"
 # demos written by the agents may refer to their own worktree path
-sed -i "s#/tmp/seed/w\(1[01]\|[t23456789]\)-[A-Za-z0-9_-]*#$EV#g" "$EV/SEED/demo.py"
+sed -i "s#/tmp/seed/w\(1[0-9]\|[t23456789]\)-[A-Za-z0-9_-]*#$EV#g" "$EV/SEED/demo.py"
 cd "$EV"
 echo "== demo WITHOUT change"
 PYTHONPATH=$EV timeout 1200 /venv/bin/python SEED/demo.py > /dev/shm/demo_without_$LABEL.log 2>&1; RC_WITHOUT=$?
 tail -2 /dev/shm/demo_without_$LABEL.log | cut -c1-220
-sed "s#/tmp/seed/w\(1[01]\|[t23456789]\)-[A-Za-z0-9_-]*/##g" SEED/patch.diff > /dev/shm/patch_$LABEL.diff
+sed "s#/tmp/seed/w\(1[0-9]\|[t23456789]\)-[A-Za-z0-9_-]*/##g" SEED/patch.diff > /dev/shm/patch_$LABEL.diff
 git apply /dev/shm/patch_$LABEL.diff || { echo "PATCH DOES NOT APPLY"; git -C /repo worktree remove --force "$EV"; exit 2; }
 git diff --stat -- qkeras | tail -2
 /venv/bin/python -m compileall -q qkeras >/dev/null 2>&1 || echo "COMPILE ERROR"
